@@ -247,7 +247,10 @@ func (rm *RequestManager) releaseRequestTask(p peer.ID, task *peertask.Task, err
 	if !ok {
 		return
 	}
-	if _, ok := err.(hooks.ErrPaused); ok {
+	// a request that was cancelled (or failed) while the executor was still running must be
+	// terminated now, even if the executor stopped because of a pause: otherwise it would sit in
+	// the paused state forever, with its channels open and its CancelRequest callers blocked
+	if _, ok := err.(hooks.ErrPaused); ok && ipr.ctx.Err() == nil {
 		ipr.state = graphsync.Paused
 		return
 	}
